@@ -22,7 +22,8 @@ EXPLANATION = ("Plain-Python analysis of the exporters: per-loop path enumeratio
                "address, use-before-advance), normal-form comparison of the stride between the sibling exporters, constant "
                "folding of the bytes-per-word factor with alignment = 32, def-use of decode-relevant configuration "
                "towards the exporters, literal tables of get_mem_data, twin comparison of the generated read/write accessors.")
-TECHNIQUE = "per-loop path enumeration + normal-form twin comparison + constant folding + parameter def-use"
+TECHNIQUE = ("abstract interpretation of the exporters on a model SoC description (published text read back, accessors execu"
+             "ted on a model memory) + per-loop path enumeration + constant folding + parameter def-use + IR def-use through registers")
 
 WALKERS = [
     # function, running-address variable, how the address is consumed in the loop
